@@ -420,3 +420,43 @@ Lemma radd_before_fix_refuted :
   ptr_arith [r] false (2^44 + 65528) 3 4 = Abort /\
   radd_before_fix 0 5 8 = Ok 40 /\ ptr_arith [r] false 0 5 4 = Abort.
 Proof. vm_compute. repeat split; reflexivity. Qed.
+
+(* ---------- operands held in sandbox memory ---------- *)
+Lemma arr_index_cell_inside k f len start elsize a :
+  k <> IBool -> in_range k (f 0%nat) = true -> 0 < elsize ->
+  arr_index_cell k f len start elsize = Ok a ->
+  start <= a /\ a + elsize <= start + len * elsize /\ a = start + f 0%nat * elsize.
+Proof.
+  intros Hk Hr He H. unfold arr_index_cell in H. rewrite (arr_index_correct k _ len start elsize Hk Hr) in H.
+  change (arr_index_spec (f 0%nat) len start elsize = Ok a) in H.
+  destruct (arr_index_designates _ _ _ _ _ He H) as (A & B & C & _). repeat split; assumption.
+Qed.
+
+Lemma arr_index_cell_later_reads_irrelevant k f g len start elsize :
+  f 0%nat = g 0%nat -> arr_index_cell k f len start elsize = arr_index_cell k g len start elsize.
+Proof. intros E. unfold arr_index_cell. rewrite E. reflexivity. Qed.
+
+Lemma arr_index_cell_refetch_escapes :
+  exists f a, arr_index_cell_refetch IInt f 4 1000 4 = Ok a /\ in_range IInt (f 0%nat) = true /\ ~ (1000 <= a /\ a + 4 <= 1000 + 4 * 4).
+Proof. exists (fun i => match i with O => 3 | _ => 4096 end). eexists. vm_compute. split; [reflexivity|]. split; [reflexivity|]. intros [A B]. apply B. reflexivity. Qed.
+
+Lemma ptr_arith_cell_never_outside l s sub p f stride t :
+  world_ok l -> In s l -> inr s p = true -> ptr_arith_cell l sub p f stride = Ok t -> inr s t = true.
+Proof. intros W I P H. exact (ptr_arith_never_outside l s sub p (f 0%nat) stride t W I P H). Qed.
+
+Lemma ptr_arith_cell_refetch_escapes :
+  exists f t, world_ok [demo_region] /\ inr demo_region (2^44 + 64) = true /\
+    ptr_arith_cell_refetch [demo_region] false (2^44 + 64) f 4 = Ok t /\ inr demo_region t = false.
+Proof.
+  exists (fun i => match i with O => 1 | _ => 2^40 end). exists (2^44 + 64 + 2^42). split; [exact demo_world_ok|].
+  split; [vm_compute; reflexivity|]. split; vm_compute; reflexivity.
+Qed.
+
+(* a data pointer passed to a callback (C12) *)
+Lemma cb_ptr_param s rep : region_ok s -> 0 <= rep < rsize s ->
+  (unsandbox s rep = 0 <-> rep = 0) /\ ptr_inv s (unsandbox s rep) /\ sandbox_ptr s (unsandbox s rep) = rep.
+Proof.
+  intros Hs Hr. split; [|split; [exact (unsandbox_inv s rep Hs Hr)|exact (roundtrip_rep s rep Hs Hr)]].
+  unfold unsandbox, impl_unsandbox. destruct Hs as (Hb & _ & _).
+  destruct (Z.eqb_spec rep 0) as [->|Hn]; [tauto|]. split; [lia|tauto].
+Qed.
